@@ -1008,7 +1008,10 @@ class Context:
                 length = arg.length
                 result = array_class(length)
                 for i in range(length):
-                    result.set_index(i, arg.get_index(i))
+                    element = arg.get_index(i)
+                    if isinstance(element, JSObject) and self._current_vm is not None:
+                        element = self._current_vm._to_primitive(element, "number")
+                    result.set_index(i, element)
                 return result
             return array_class(0)
 
